@@ -221,6 +221,14 @@ fn main() {
                     }
                 }
             }
+            // large fold counts (the statement holds "for every n >= k >= 2"; the exhaustive
+            // range above stops at 64): leave-one-out and near-leave-one-out on a few hundred rows
+            for &(n, k) in [(300usize, 300usize), (300, 257), (520, 513), (257, 256), (258, 257), (700, 3)].iter() {
+                for &sh in [false, true].iter() {
+                    run += 1;
+                    out.emit(kfold_event(run, n, k, sh));
+                }
+            }
             // the documented rejection: fewer than two splits
             for n in 2..=4 {
                 for k in 0..=1 {
@@ -260,6 +268,13 @@ fn main() {
             }
         }
         "gen-cv" => {
+            // many folds: leave-one-out style runs beyond 256 folds
+            for &(n, k) in [(260usize, 260usize), (300, 257)].iter() {
+                for &pk in [false, true].iter() {
+                    run += 1;
+                    cv_events(run, n, k, false, pk, &mut out);
+                }
+            }
             let reps = if th { 6 } else { 1 };
             let nmax = if th { 64 } else { 40 };
             for n in 4..=nmax {
